@@ -807,6 +807,74 @@ Example ex_install_after_write_loses_response :
   slot_run (mk_slot (Some false) false) [SWrite; SResp; SInstall; SSelect; SGiveUp] = [SGaveUp].
 Proof. vm_compute. split; reflexivity. Qed.
 
+(* ---------- only a PINGRESP completes a ping ---------- *)
+(* whatever else the reader handles, at any point: the ping waiter's results are those of the
+   same history with all other packets removed *)
+Theorem other_packets_ignored es : forall st,
+  slot_run st es = slot_run st (filter (fun e => negb (is_other e)) es).
+Proof.
+  induction es as [|e es IH]; intros st; [reflexivity|].
+  destruct e; cbn [filter is_other negb]; try (cbn [slot_run]; destruct (slot_step st _) as [st' out]; rewrite IH; reflexivity).
+  cbn [slot_run slot_step app]. apply IH.
+Qed.
+
+Lemma filter_repeat_other o : filter (fun e => negb (is_other e)) (repeat SOther o) = [].
+Proof. induction o as [|o IH]; [reflexivity | exact IH]. Qed.
+
+Lemma filter_repeat_resp n : filter (fun e => negb (is_other e)) (repeat SResp n) = repeat SResp n.
+Proof. induction n as [|n IH]; [reflexivity | cbn [repeat filter is_other negb]; rewrite IH; reflexivity]. Qed.
+
+Lemma ping_events_talk_filter u z r o :
+  filter (fun e => negb (is_other e)) (ping_events_talk (u, z, r, o)) = ping_events (u, z, r).
+Proof.
+  unfold ping_events_talk, ping_events.
+  rewrite filter_app, filter_repeat_resp. cbn [filter is_other negb].
+  rewrite filter_app, filter_repeat_other, filter_app, filter_repeat_resp. cbn [app filter is_other negb].
+  rewrite filter_app, filter_repeat_other. cbn [app].
+  destruct (z + r)%nat; [reflexivity | rewrite filter_repeat_resp; reflexivity].
+Qed.
+
+Lemma wire_outcomes_talk_eq xs : wire_outcomes_talk xs = wire_outcomes (map fst xs).
+Proof.
+  unfold wire_outcomes_talk, wire_outcomes. rewrite other_packets_ignored. f_equal. f_equal.
+  induction xs as [|[[[u z] r] o] xs IH]; [reflexivity|].
+  cbn [flat_map map fst]. rewrite filter_app, ping_events_talk_filter, IH. reflexivity.
+Qed.
+
+(* a peer that is mute to pings but otherwise talking (any number of PUBLISH / PUBREL / acks after
+   every PINGREQ) is reported exactly like a fully silent one: after n answered pings,
+   ErrPingTimeout at PINGREQ n+1 *)
+Theorem only_pingresp_completes_ping I T pre u o post : 0 < I ->
+  Forall (fun x => peer_answers (fst x) = true) pre ->
+  wire_outcomes_talk (pre ++ (u, O, O, o) :: post) =
+    answered (repeat 0 (length pre)) ++ Never :: wire_outcomes_talk post /\
+  ko_result (keepalive I T (wire_outcomes_talk (pre ++ (u, O, O, o) :: post))) = KA_returned EPingTimeout /\
+  pings (keepalive I T (wire_outcomes_talk (pre ++ (u, O, O, o) :: post))) = S (length pre).
+Proof.
+  intros HI Hpre.
+  assert (Hpre' : Forall (fun x => peer_answers x = true) (map fst pre)).
+  { induction Hpre as [|x pre Hx Hpre IH]; cbn [map]; constructor; assumption. }
+  destruct (stale_pingresp_inert I T (map fst pre) u (map fst post) HI Hpre') as (E & H1 & H2).
+  rewrite !wire_outcomes_talk_eq, map_app. cbn [map fst]. rewrite map_length in *.
+  repeat split; assumption.
+Qed.
+
+Example ex_talking_but_mute :
+  wire_outcomes_talk [(O, O, 1%nat, 2%nat); (O, O, O, 9%nat); (O, O, 1%nat, O)] = [Answered 0; Never; Answered 0].
+Proof. vm_compute. reflexivity. Qed.
+
+(* ---------- the keep-alive's deadline is Timeout only ---------- *)
+Theorem keepalive_ignores_response_timeout o rt delays :
+  rc_keepalive_cfg o rt delays = rc_keepalive_peer o delays.
+Proof. reflexivity. Qed.
+
+(* what pinging through the RetryClient would do: ResponseTimeout 50, Timeout 3000, a peer that
+   answers after 200 is treated as silent *)
+Example ex_ping_via_retry_client :
+  peer_outcome (ping_deadline PingRetryClient 3000 50) (Some 200) = Never /\
+  peer_outcome (ping_deadline rc_pinger 3000 50) (Some 200) = Answered 200.
+Proof. vm_compute. split; reflexivity. Qed.
+
 (* ---------- the model's times are lower bounds ---------- *)
 (* An execution with arbitrary extra latencies in every iteration: [l0] between the moment the
    tick is due and the moment the loop receives it, [l1] between that and the start of the Ping
